@@ -330,7 +330,7 @@ class ScalarToFile(Module):
 
         # Add all signals
         for s in self.sig_in:
-            if np.size(np.asarray(s.state)) > 1:
+            if np.ndim(s.state) > 0:
                 it = np.nditer(s.state, flags=['multi_index'])
                 while not it.finished:
                     dat.append(it.value.__format__(self.format))
